@@ -211,6 +211,20 @@ impl Availability {
         ensures final(self)@ == (if avail { old(self)@.insert(idx) } else { old(self)@.remove(idx) }),
                 (avail <==> old(self)@.contains(idx)) ==> final(self)@ == old(self)@,   // setting a bit to its current value
     { unimplemented!() }
+
+//@extract file=actix-server/src/availability.rs item="impl Availability / fn set_available_all" props=C02,C04 name=availability::set_available_all
+//@spec
+    requires forall|i: int| 0 <= i < handles@.len() ==> (#[trigger] handles@[i]).spec_idx() < 512,
+    ensures
+        // exactly the given workers' bits are added   [C02,C04]
+        forall|x: usize| final(self)@.contains(x) <==> (old(self)@.contains(x) || exists|k: int| 0 <= k < handles@.len() && (#[trigger] handles@[k]).spec_idx() == x),
+//@loop 1
+        invariant
+            r9_n <= handles@.len(),
+            forall|i: int| 0 <= i < handles@.len() ==> (#[trigger] handles@[i]).spec_idx() < 512,
+            forall|x: usize| self@.contains(x) <==> (old(self)@.contains(x) || exists|k: int| 0 <= k < r9_n && (#[trigger] handles@[k]).spec_idx() == x),
+        decreases handles@.len() - r9_n,
+//@end
 }
 
 // ===================================================================== real types of accept.rs
@@ -616,7 +630,7 @@ impl Accept {
 //@end
 
 #[verifier::exec_allows_no_decreases_clause]
-//@extract file=actix-server/src/accept.rs item="impl Accept / fn accept_all" props=C03,C05
+//@extract file=actix-server/src/accept.rs item="impl Accept / fn accept_all" props=C03,C04,C05
 //@spec
     requires
         old(self).wf(),
@@ -628,6 +642,7 @@ impl Accept {
         sockets_wf(final(sockets)@, final(self).reg().token_bound()),
         i5(final(self), final(sockets)@),
         final(self).paused == old(self).paused && final(self).poll == old(self).poll && final(self).waker_queue == old(self).waker_queue,
+        final(self).avail@.subset_of(old(self).avail@),   // [C02,C04] dispatching never marks a worker available
         // every listener has been tried: spare capacity remains only if every backlog is drained or backing off  [C03]
         !final(self).has_capacity() || forall|k: int| 0 <= k < final(sockets)@.len() ==>
             (#[trigger] final(sockets)@[k]).lst.drained() || final(sockets)@[k].timeout.is_some(),
@@ -648,6 +663,7 @@ impl Accept {
             i5(self, sockets@),
             !self.paused,
             self.paused == old(self).paused && self.poll == old(self).poll && self.waker_queue == old(self).waker_queue,
+            self.avail@.subset_of(old(self).avail@),
             !self.has_capacity() || forall|k: int| 0 <= k < r9_m ==>
                 (#[trigger] sockets@[k]).lst.drained() || sockets@[k].timeout.is_some(),
         decreases r9_v@.len() - r9_m,
@@ -702,7 +718,7 @@ impl Accept {
 //@end
 
 #[verifier::exec_allows_no_decreases_clause]
-//@extract file=actix-server/src/accept.rs item="impl Accept / fn handle_waker" ret=exit props=C02,C03,C05,C06,C08
+//@extract file=actix-server/src/accept.rs item="impl Accept / fn handle_waker" ret=exit props=C02,C03,C04,C05,C06,C08
 //@spec
     requires
         old(self).wf(),
@@ -757,6 +773,8 @@ impl Accept {
                     assert(forall|k: int| 0 <= k < sockets@.len() ==> (#[trigger] sockets@[k]).lst.registered() || sockets@[k].timeout.is_some());   // [C05] every listener accepts again
                     assert(pre.paused ==> (!self.has_capacity() || forall|k: int| 0 <= k < sockets@.len() ==>
                         (#[trigger] sockets@[k]).lst.drained() || sockets@[k].timeout.is_some()));   // [C05] including connections that arrived meanwhile
+                    // resuming marks no worker available: a saturated worker stays unavailable until it releases   [C02,C04]
+                    assert(self.avail@.subset_of(pre.avail@));   // [C02,C04]
 //@loop 1
         invariant
             self.wf(),
